@@ -263,10 +263,24 @@ func c17Real(c *Ctx) {
 		}
 		// owner and mode through every setter the client has, by path and by open handle: the file system must show exactly
 		// what was asked for (chown needs root, which this sandbox runs as; without it the case is recorded as skipped)
-		for si, setter := range []string{"Client.Chown", "File.Chown", "Client.Chmod", "File.Chmod"} {
+		type setCase struct {
+			setter string
+			mode   os.FileMode
+		}
+		var setCases []setCase
+		for _, st := range []string{"Client.Chown", "File.Chown"} {
+			setCases = append(setCases, setCase{st, 0})
+		}
+		for _, st := range []string{"Client.Chmod", "File.Chmod"} {
+			for _, m := range []os.FileMode{0o640, 0o7, os.ModeSetuid | 0o755, os.ModeSetgid | 0o750, os.ModeSticky | 0o777, os.ModeSetuid | os.ModeSetgid | os.ModeSticky | 0o700} {
+				setCases = append(setCases, setCase{st, m})
+			}
+		}
+		for si, sc := range setCases {
+			setter := sc.setter
 			target := filepath.Join(dir, "settime")
 			rtarget := filepath.Join(base, "settime")
-			uid, gid, mode := 1234+si, 5678+si, os.FileMode(0o600+si*0o11)
+			uid, gid, mode := 1234+si, 5678+si, sc.mode
 			var serr error
 			switch setter {
 			case "Client.Chown":
@@ -287,7 +301,7 @@ func c17Real(c *Ctx) {
 				f.Close()
 			}
 			got, _ := lsnap(target)
-			n := c.Case("real_setowner", kvs("setter", setter), kvb("workdir", cfg.workDir != ""), kvb("alloc", cfg.alloc))
+			n := c.Case("real_setowner", kvs("setter", setter), kvx("mode", uint64(mode)), kvb("workdir", cfg.workDir != ""), kvb("alloc", cfg.alloc))
 			c.NT(n)
 			c.Stat("real_setowner")
 			switch {
@@ -298,8 +312,8 @@ func c17Real(c *Ctx) {
 				c.Oracle(n, false, setter+": "+serr.Error())
 			case strings.HasSuffix(setter, "Chown") && (int(got.UID) != uid || int(got.GID) != gid):
 				c.Oracle(n, false, fmt.Sprintf("%s(%d, %d) left owner %d:%d on the file", setter, uid, gid, got.UID, got.GID))
-			case strings.HasSuffix(setter, "Chmod") && got.Mode.Perm() != mode:
-				c.Oracle(n, false, fmt.Sprintf("%s(%v) left mode %v on the file", setter, mode, got.Mode.Perm()))
+			case strings.HasSuffix(setter, "Chmod") && got.Mode&(os.ModePerm|os.ModeSetuid|os.ModeSetgid|os.ModeSticky) != mode:
+				c.Oracle(n, false, fmt.Sprintf("%s(%v) left mode %v on the file", setter, mode, got.Mode&(os.ModePerm|os.ModeSetuid|os.ModeSetgid|os.ModeSticky)))
 			default:
 				c.Oracle(n, true, "")
 			}
